@@ -222,7 +222,7 @@ func newWorld(auth *c.FakeAuth, dir string, p policy, L, V, G int64) *world {
 	yaml := "- service: decoy\n  default:\n    from: " + decoyHost + "\n    to: " + b.HostPort() + "\n    options:\n      allowed_email_domains: [\"*\"]\n      allowed_groups: [\"*\"]\n      skip_auth_regex: [\"^/x/\"]\n" +
 		"- service: svc\n  default:\n    from: " + host + "\n    to: " + b.HostPort() + "\n    options:\n" + strings.Join(opts, "\n") + "\n"
 	w, err := c.BuildProxy(c.ProxyOpts{YAML: yaml, Lifetime: time.Duration(L) * time.Second, Valid: time.Duration(V) * time.Second,
-		Grace: time.Duration(G) * time.Second, Dir: dir, CookieDomain: p.CookieDomain}, auth)
+		Grace: time.Duration(G) * time.Second, Dir: dir, CookieDomain: p.CookieDomain, ViaEnv: true}, auth)
 	c.Must(err)
 	wd := &world{W: w, B: b, Pol: p, L: L, V: V, G: G, Slug: "google"}
 	for _, s := range p.Skip {
@@ -249,10 +249,10 @@ type reqSpec struct {
 }
 
 type stepObs struct {
-	coq  string
-	json map[string]interface{}
-	eff  string
-	sess *vsession // saved session (virtual), if any
+	coq    string
+	json   map[string]interface{}
+	eff    string
+	sess   *vsession // saved session (virtual), if any
 	served bool
 }
 
@@ -300,6 +300,26 @@ func (w *world) step(auth *c.FakeAuth, vnow int64, rq reqSpec, a ans) stepObs {
 	case "sealed":
 		req.AddCookie(&http.Cookie{Name: w.W.CookieName, Value: w.W.Seal(toReal(rq.Sess, vnow, real))})
 		ck = "(Sealed " + rq.Sess.coq() + ")"
+	case "flowvalue":
+		// a GENUINE value of another type sealed under the same key: the OAuth state of a sign-in redirect of this
+		// very proxy. It opens, as JSON without any session field: the session it decodes to is the empty one.
+		start := w.W.Do(c.NewReq("GET", host, "/x/start"))
+		w.B.Take()
+		auth.TakeCalls()
+		loc, _ := url.Parse(start.Header().Get("Location"))
+		st := ""
+		if loc != nil {
+			st = loc.Query().Get("state")
+		}
+		if st == "" {
+			c.SetupFailed("no state parameter in the sign-in redirect (status %d)", start.Code)
+			st = "bm90IGEgc2Vzc2lvbg"
+			ck = "Junk"
+		} else {
+			empty := &vsession{RefreshDL: zeroT, LifetimeDL: zeroT, ValidDL: zeroT}
+			ck = "(Sealed " + empty.coq() + ")"
+		}
+		req.AddCookie(&http.Cookie{Name: w.W.CookieName, Value: st})
 	}
 	rec := w.W.Do(req)
 	seen := w.B.Take()
@@ -486,6 +506,8 @@ func single(r *c.Rng, auth *c.FakeAuth, worlds []*world) c.Case {
 		rq.CookieKind = "otherkey"
 	case 3:
 		rq.CookieKind = "truncated"
+	case 4:
+		rq.CookieKind = "flowvalue"
 	default:
 		rq.CookieKind = "sealed"
 	}
@@ -502,7 +524,7 @@ func single(r *c.Rng, auth *c.FakeAuth, worlds []*world) c.Case {
 		for h, vals := range map[string][]string{
 			"X-Http-Method-Override": {"OPTIONS", "GET"}, "X-Method-Override": {"OPTIONS"},
 			"User-Agent": {"kube-probe/1.27", "ELB-HealthChecker/2.0", "GoogleHC/1.0", "curl/8"},
-			"Upgrade": {"websocket"}, "Connection": {"Upgrade", "keep-alive"},
+			"Upgrade":    {"websocket"}, "Connection": {"Upgrade", "keep-alive"},
 			"X-Forwarded-Proto": {"https", "http"}, "X-Authenticated": {"true"}, "X-Sso-Skip-Auth": {"1"},
 			"Access-Control-Request-Method": {"GET"}, "Origin": {"https://evil.example"},
 		} {
@@ -515,7 +537,6 @@ func single(r *c.Rng, auth *c.FakeAuth, worlds []*world) c.Case {
 	o := w.step(auth, vnow, rq, a)
 	return w.hcase("None", []stepObs{o}, []string{rq.Sess.Email})
 }
-
 
 // ---- concurrent pairs: two requests in flight at once -------------------------------------------
 // Request B is started first and its first back-channel call is held at the fake authenticator;
@@ -725,10 +746,25 @@ func history(r *c.Rng, auth *c.FakeAuth, worlds []*world, linear bool, maxLen in
 			break
 		}
 		if attempt >= 3 {
-			c.Must(fmt.Errorf("login failed: %d", rec.Code))
+			// the real callback refuses a login its scripted authenticator grants: a broken correspondence, not harness
+			// trouble — carry on with the session that login would have produced
+			c.SetupFailed("login through the real callback failed: status %d", rec.Code)
+			val = ""
+			break
 		}
 	}
-	issued := []*vsession{fromReal(w.W.Open(val), vnow, real)}
+	var first *vsession
+	if val != "" {
+		first = fromReal(w.W.Open(val), vnow, real)
+	} else {
+		var grp []string
+		if len(w.Pol.Groups) > 0 {
+			grp = []string{"g1"}
+		}
+		first = &vsession{Slug: w.Slug, Email: email, User: strings.Split(email, "@")[0], Access: "at", RefreshTok: rt,
+			RefreshDL: vnow + exp*sec, LifetimeDL: vnow + w.L*sec, ValidDL: vnow + w.V*sec, Groups: grp, Upstream: host}
+	}
+	issued := []*vsession{first}
 	iat0 := vnow
 	issued[0].IssuedAt = &iat0
 	var cur *vsession = issued[0]
@@ -737,7 +773,7 @@ func history(r *c.Rng, auth *c.FakeAuth, worlds []*world, linear bool, maxLen in
 	var steps []stepObs
 	outage, shape, outSt := 0, 0, 503
 	for i := 0; i < n; i++ {
-		if outage > 0 && shape >= 3 {
+		if outage > 0 && shape >= 3 && shape <= 5 {
 			// a persistent outage walked across the grace boundary in validity-period-sized strides
 			vnow += []int64{660, 660, 1860, 300}[r.Intn(4)] * sec
 		} else {
@@ -774,6 +810,11 @@ func history(r *c.Rng, auth *c.FakeAuth, worlds []*world, linear bool, maxLen in
 				a.RefreshStatus, a.ValidateStatus, a.ProfileStatus = 201, 200, st
 			case 2, 5: // refresh and validation down, the group lookup answers
 				a.RefreshStatus, a.ValidateStatus, a.ProfileStatus = st, st, 200
+			case 6, 7: // the token check REJECTS while the group lookup is down: a rejection is no outage
+				a.RefreshStatus, a.ValidateStatus, a.ProfileStatus = 201, []int{401, 403, 500, 404}[r.Intn(4)], st
+				if shape == 7 {
+					a.RefreshStatus = []int{401, 403, 500}[r.Intn(3)]
+				}
 			default: // 3: everything down for the whole run
 				a.RefreshStatus, a.ValidateStatus, a.ProfileStatus = st, st, st
 			}
@@ -782,9 +823,9 @@ func history(r *c.Rng, auth *c.FakeAuth, worlds []*world, linear bool, maxLen in
 			a = genAns(r, pOK)
 			if r.Chance(0.15) {
 				outage = 1 + r.Intn(4)
-				shape = r.Intn(6)
+				shape = r.Intn(8)
 				outSt = []int{429, 503}[r.Intn(2)]
-				if shape >= 3 {
+				if shape >= 3 && shape <= 5 {
 					outage = 3 + r.Intn(6)
 				}
 			}
@@ -824,6 +865,7 @@ func main() {
 	dir := c.Scratch(a.Out)
 	defer os.RemoveAll(dir)
 	auth := c.NewFakeAuth()
+	auth.PeerHeaders = true
 	auth.Srv.Config.SetKeepAlivesEnabled(false)
 	defer auth.Srv.Close()
 	pols := []policy{
